@@ -33,7 +33,8 @@ EXHAUSTIVE = {'quick': 'all 1-rule graphs (bodies: choices of <=2 sequences of <
               'thorough': 'all 1-rule graphs, all 2-rule graphs with bodies of <=3 items (93025), all 3-rule graphs with bodies of <=2 items sampled 1/4'}
 FLOORS = {
     'quick': {'graphs': 5000, 'lrec_graphs': 2000, 'detected_ok': 1500, 'clean_ok': 700, 'parses': 60000,
-              'scc:self-loop': 500, 'scc:2-cycle': 200, 'flags_checked': 5000},
+              'scc:self-loop': 500, 'scc:2-cycle': 200, 'flags_checked': 5000, 'lrec_graphs_with_generated_parser': 800,
+              'lrec_graphs_with_nomemo_or_nostak': 150},
     'thorough': {'graphs': 150000, 'lrec_graphs': 50000, 'parses': 1500000},
 }
 PEAK_COUNTERS = ('max_steps_ratio_x100',)
@@ -42,7 +43,9 @@ NAMES = ['a', 'b', 'c', 'd', 'e', 'f']
 
 
 def items_for(n):
-    return [L.Call(NAMES[i]) for i in range(n)] + [L.Tok('x'), L.Opt(L.Tok('x')), L.Clo(L.Tok('x')), L.PClo(L.Tok('x'))]
+    # (a negative lookahead consumes nothing whatever it looks at: calls behind it are left calls)
+    return [L.Call(NAMES[i]) for i in range(n)] + [L.Tok('x'), L.Opt(L.Tok('x')), L.Clo(L.Tok('x')), L.PClo(L.Tok('x')),
+                                                    L.NLA(L.Tok('y'))]
 
 
 def bodies(n, max_items):
@@ -96,10 +99,12 @@ def random_graph(rng):
         r = rng.random()
         if r < 0.45:
             return L.Call(rng.choice(perm))
-        if r < 0.65:
+        if r < 0.62:
             return L.Tok('x')
-        if r < 0.75:
+        if r < 0.70:
             return L.Tok('y')
+        if r < 0.75:
+            return rng.choice([L.NLA(L.Tok('y')), L.LA(L.Tok('x')), L.NLA(L.Tok('x')), L.Void(), L.NLA(L.Seq((L.Tok('x'), L.Tok('y'))))])
         if depth <= 0:
             return L.Tok('x')
         if r < 0.85:
@@ -119,7 +124,11 @@ def random_graph(rng):
     for nm in perm:
         k = rng.choice([1, 2, 2, 3])
         opts = [seq(1) for _ in range(k)]
-        rules.append(L.Rule(nm, opts[0] if k == 1 else L.Choice(tuple(opts))))
+        deco = ()
+        if rng.random() < 0.2:
+            # caching decorators must not take the left-recursion guard away (model or generated parser)
+            deco = rng.choice([('nomemo',), ('nostak',), ('nomemo', 'nostak')])
+        rules.append(L.Rule(nm, opts[0] if k == 1 else L.Choice(tuple(opts)), deco))
     return L.Grammar(rules)
 
 
@@ -223,19 +232,35 @@ def check_graph(acc, g, origin):
         for r in m.rules:
             acc.count('flags_checked')
             if r.name not in lrec:
-                if r.is_lrec or not r.is_memo:
+                asked = 'nomemo' in g.rule(r.name).decorators   # the grammar itself switched memoization off for this rule
+                if r.is_lrec or (not r.is_memo and not asked):
                     acc.violation('flags/non-cyclic-rule-marked',
                                   f'rule {r.name!r} lies on no left-recursive cycle but is_lrec={r.is_lrec} is_memo={r.is_memo}: {text!r}', w)
     except AttributeError:
         acc.note('Rule.is_lrec / Rule.is_memo unobserved')
-    # ---- (3) bounded recursion on the battery, from every rule
+    # ---- (3) bounded recursion on the battery, from every rule; model, and (sampled) the generated parser
     f11 = lrec and no_common_rule(sccs, graph)
-    for start in [r.name for r in g.rules]:
+    backends = [('model', lambda t, **kw: m.parse(t, **kw))]
+    decorated = any(r.decorators for r in g.rules)
+    if origin.get('mode') == 'replay' or decorated or h64('C16gen', text) % 5 == 0:
+        try:
+            from ..tsu import gen_parser
+            cls = gen_parser(m)[0]
+            backends.append(('generated', lambda t, **kw: cls().parse(t, **kw)))
+            acc.count('graphs_with_generated_parser')
+            if lrec:
+                acc.count('lrec_graphs_with_generated_parser')
+            if decorated and lrec:
+                acc.count('lrec_graphs_with_nomemo_or_nostak')
+        except Exception as e:  # noqa: BLE001
+            acc.violation(f'codegen/exc:{type(e).__name__}', f'generating the parser raised {type(e).__name__}: {e} for {text!r}', w)
+    for backend, parse in backends:
+      for start in [r.name for r in g.rules]:
         for t in BATTERY:
             heart = StepHeart(step_budget(g, t))
             out = 'ok'
             try:
-                m.parse(t, start=start, heart=heart)
+                parse(t, start=start, heart=heart)
             except FailedParse:
                 out = 'fail'
             except RecursionError:
@@ -254,11 +279,11 @@ def check_graph(acc, g, origin):
             if out in ('RecursionError', 'StepBudget'):
                 if f11:
                     acc.violation('unbounded/scc-without-common-rule',
-                                  f'{out} parsing {t!r} from {start!r}: {text!r}', ww)
+                                  f'{backend}: {out} parsing {t!r} from {start!r}: {text!r}', dict(ww, backend=backend))
                 else:
-                    acc.violation('unbounded/' + out, f'{out} parsing {t!r} from {start!r}: {text!r}', ww)
+                    acc.violation('unbounded/' + out, f'{backend}: {out} parsing {t!r} from {start!r}: {text!r}', dict(ww, backend=backend))
                 return  # one witness per graph is enough; the rest of the battery would only repeat it
-            acc.violation('parse/' + out, f'{out} parsing {t!r} from {start!r}: {text!r}', ww)
+            acc.violation('parse/' + out, f'{backend}: {out} parsing {t!r} from {start!r}: {text!r}', dict(ww, backend=backend))
 
 
 def run_shard(desc, acc):
